@@ -70,10 +70,10 @@ def tlaps(ctx):
 
 
 def run(ctx):
-    rnd = random.Random(ctx.seed)
     tlaps(ctx)
 
     def once():
+        rnd = random.Random(ctx.seed)      # inside: a re-run must force the same random schedules
         events_all = []
         traces = []
         ctx.mc("MC_ParallelGrid", "MC_ParallelGrid.cfg", "partition static properties for every (len<=512, g<=40)", workers=12)
